@@ -9,7 +9,7 @@ from . import model
 from .hist import build, apply_op, rainbow_code
 
 # palette roles (DESIGN 2.3); seed 0 values
-ROLES0 = {'R': '31', 'B': '34', 'G': '32', 'W': '1', 'N': '22', 'U': '4', 'D': '21',
+ROLES0 = {'R': '31', 'B': '34', 'G': '32', 'W': '1', 'F': '2', 'N': '22', 'U': '4', 'D': '21',
           'X': '38;5;214', 'T': '48;2;1;2;3', 'Z': '0',
           # verbatim settings (documented '[' form): incomplete group, multi-group, invalid, unknown code
           'p': '[38', 'q': '[32;31', 'x': '[xm', 'u': '[99', 'y': '[38;5;196;1', 'b': 'name:bold', 'r': 'name:fg_red'}
@@ -24,6 +24,7 @@ def roles(seed):
         rot = FG1[k:] + FG1[:k]
         r['R'], r['B'], r['G'] = rot[0], rot[1], rot[2]
         r['W'] = ['1', '2'][seed % 2]
+        r['F'] = ['2', '1'][seed % 2]
         r['U'], r['D'] = (['4', '21'], ['21', '4'])[(seed // 2) % 2]
         r['X'] = '38;5;%d' % (100 + (seed * 37) % 150)
         r['T'] = '48;2;%d;%d;%d' % (1 + seed % 9, 2 + seed % 7, 3 + seed % 5)
@@ -213,7 +214,12 @@ def std_pool(task, seed, acc=None):
         if len(h) == 1:
             return ops[part::parts]
         return ops
-    seed_hist = [['plain', 'y' * LONG + text]] if task['layout'] == 'long' else [[task['layout'], text]]
+    if task['layout'] == 'long':
+        seed_hist = [['plain', 'y' * LONG + text]]
+    elif task['layout'] in ('dup1', 'dup2'):
+        seed_hist = dup_hist(task['layout'], text, seed)
+    else:
+        seed_hist = [[task['layout'], text]]
     pool = bfs([seed_hist], gen_part, task['depth'])
     if part != 0:
         pool.items = [(h, v) for (h, v) in pool.items if len(h) > 1]
@@ -231,3 +237,13 @@ def plan_override(pid, default):
     if not v:
         return default
     return [(p[0], tuple(p[1]), p[2], p[3], p[4]) for p in json.loads(v)]
+
+
+def dup_hist(kind, text, seed):
+    """Histories of values in which ONE setting object is active twice for a stretch: copies share setting objects,
+    and the seam merge of a self-concatenation continues the left part's object into the right part."""
+    R = roles(seed)
+    t = text[:3] if len(text) >= 3 else (text + 'xyz')[:3]
+    if kind == 'dup1':
+        return [['plain', t[:1]], ['icat', ['ctor', t[1:3], R['W']]], ['apply', R['W'], 0, 2, True], ['iselfcat']]
+    return [['plain', t[:2]], ['apply', R['R'], 1, 2, True], ['apply', R['R'], 0, 2, True], ['selfcat']]
